@@ -27,6 +27,7 @@
 From Coq Require Import List.
 From PV Require Import Lib.Py Model.Graph Model.Trim.
 From PV Require Import Proofs.C01Base Proofs.C01Inv Proofs.C01 Proofs.C08.
+From PV Require Import Model.TrimKeep Proofs.C01Weak Proofs.C08Weak Proofs.C08Keep.
 Import ListNotations.
 
 (* a frozen cell is not a descendant of any input, so its from-scratch value is
@@ -88,3 +89,114 @@ Theorem C08_preserve_buried_partial : forall W sem, wf W -> sem_nonblank W sem -
     = run_spec (tr_wb (trim W sem I O s)) sem (st_cache (tr_st (trim W sem I O s))) h.
 Proof. exact trimmed_coherent. Qed.
 Print Assumptions C08_preserve_buried_partial.
+
+(* ---- the same theorems under the WEAK non-blank condition of Props/C01.v
+   (sem_nonblank_weak: a formula/range node computes a non-blank value from
+   argument lists whose formula/range arguments are non-blank), which a
+   workbook with a whole-column reference meets (C01_alias_weak) although it
+   does not meet sem_nonblank (C01_alias_not_strong).  Proofs/C08Weak.v: by
+   transfer from the theorems above (trim and the runs of the property cannot
+   tell sem from guard W sem).
+     nonblank_write W o   o is not SetValue a None with a a formula cell of W
+                          (a buried input is not written blank: a reference
+                          node would hand the blank on, and the dependants of
+                          a blank node are not reset: Refuted/C08_buried_weak_blank.v) *)
+
+Theorem C08_frozen_independent_weak : forall W sem, wf W -> sem_nonblank_weak W sem -> stored_ok W sem ->
+  forall I O s, Inv W sem s -> (forall o, In o O -> o < wb_n W) ->
+  forall f, tr_frz (trim W sem I O s) f = true ->
+    (forall a, In a I -> ~ anc W a f) /\
+    (~ In f I -> forall inp inp', (forall m, ~ In m I -> inp m = inp' m) ->
+                 spec W sem inp f = spec W sem inp' f).
+Proof. exact frozen_independent_weak. Qed.
+Print Assumptions C08_frozen_independent_weak.
+
+Theorem C08_preserve_weak : forall W sem, wf W -> sem_nonblank_weak W sem -> stored_ok W sem ->
+  forall I O s, Inv W sem s -> (forall o, In o O -> o < wb_n W) ->
+  (forall a, In a I -> wb_input W a = true /\ exists o, In o O /\ anc W a o) ->
+  (forall a, In a I -> scalar_exact (st_cache s a) = true) ->
+  forall h, Forall (io_op I O) h ->
+    snd (run (tr_wb (trim W sem I O s)) sem (tr_st (trim W sem I O s)) h)
+    = run_spec W sem (st_cache (build_all W sem O s)) h.
+Proof. exact preserve_spec_weak. Qed.
+Print Assumptions C08_preserve_weak.
+
+Theorem C08_preserve_machine_weak : forall W sem, wf W -> sem_nonblank_weak W sem -> stored_ok W sem ->
+  forall I O s, Inv W sem s -> (forall o, In o O -> o < wb_n W) ->
+  (forall a, In a I -> wb_input W a = true /\ exists o, In o O /\ anc W a o) ->
+  (forall a, In a I -> scalar_exact (st_cache s a) = true) ->
+  inputs_exact W (st_cache s) ->
+  (forall a, In a I -> late_ok W (build_all W sem O s) a) ->
+  forall h, Forall (io_op I O) h ->
+    snd (run (tr_wb (trim W sem I O s)) sem (tr_st (trim W sem I O s)) h)
+    = snd (run W sem (build_all W sem O s) h).
+Proof. exact preserve_machine_weak. Qed.
+Print Assumptions C08_preserve_machine_weak.
+
+(* PARTIAL as C08_preserve_buried_partial, and with one more hypothesis: a
+   buried input is not written blank (nonblank_write) *)
+Theorem C08_preserve_buried_weak_partial : forall W sem, wf W -> sem_nonblank_weak W sem -> stored_ok W sem ->
+  forall I O s, Inv W sem s -> (forall o, In o O -> o < wb_n W) ->
+  (forall a, In a I -> wb_input (tr_wb (trim W sem I O s)) a = true
+                       /\ st_built (tr_st (trim W sem I O s)) a = true
+                       /\ scalar_exact (st_cache (tr_st (trim W sem I O s)) a) = true) ->
+  forall h, Forall (io_op I O) h -> Forall (nonblank_write W) h ->
+    snd (run (tr_wb (trim W sem I O s)) sem (tr_st (trim W sem I O s)) h)
+    = run_spec (tr_wb (trim W sem I O s)) sem (st_cache (tr_st (trim W sem I O s))) h.
+Proof. exact trimmed_coherent_weak. Qed.
+Print Assumptions C08_preserve_buried_weak_partial.
+
+(* ---- repair 17855a0 of /repo: walk_precedents keeps the reference cell of an
+   unbounded range whenever it walks into it.  Model/TrimKeep.v trim_keepref
+   W sem unb I O s is trim with that line; unb n = node n is such a reference
+   cell, which is a node of range kind.  The two functions give the same
+   workbook, the same frozen cells, the same value for every cell of trim's
+   cell map; the cell map of trim_keepref is larger by reference nodes that the
+   walk processed, and by nothing else *)
+Theorem C08_keepref_same : forall W sem unb, (forall m, unb m = true -> wb_range W m = true) ->
+  forall I O s,
+    tr_wb (trim_keepref W sem unb I O s) = tr_wb (trim W sem I O s) /\
+    tr_frz (trim_keepref W sem unb I O s) = tr_frz (trim W sem I O s) /\
+    (forall m, st_built (tr_st (trim W sem I O s)) m = true ->
+               st_built (tr_st (trim_keepref W sem unb I O s)) m = true /\
+               st_cache (tr_st (trim_keepref W sem unb I O s)) m
+               = st_cache (tr_st (trim W sem I O s)) m) /\
+    (forall m, st_built (tr_st (trim_keepref W sem unb I O s)) m = true ->
+               st_built (tr_st (trim W sem I O s)) m = false ->
+               unb m = true /\ tr_proc (trim W sem I O s) m = true) /\
+    (forall m, unb m = false -> st_built (tr_st (trim_keepref W sem unb I O s)) m
+                                = st_built (tr_st (trim W sem I O s)) m).
+Proof. exact keep_same. Qed.
+Print Assumptions C08_keepref_same.
+
+(* ... and every history of the property returns the same values after
+   trim_keepref as after trim (hypotheses of C08_preserve_buried_partial, the
+   most general ones), so C08_preserve, C08_preserve_machine and
+   C08_preserve_buried_partial hold for trim_keepref as they stand *)
+Theorem C08_keepref_outputs : forall W sem unb, wf W ->
+  (forall m, unb m = true -> wb_range W m = true) ->
+  forall I O s, (forall o, In o O -> o < wb_n W) ->
+  sem_nonblank W sem -> stored_ok W sem -> Inv W sem s ->
+  (forall a, In a I -> wb_input (tr_wb (trim W sem I O s)) a = true
+                       /\ st_built (tr_st (trim W sem I O s)) a = true
+                       /\ scalar_exact (st_cache (tr_st (trim W sem I O s)) a) = true) ->
+  forall h, Forall (io_op I O) h ->
+    snd (run (tr_wb (trim_keepref W sem unb I O s)) sem (tr_st (trim_keepref W sem unb I O s)) h)
+    = snd (run (tr_wb (trim W sem I O s)) sem (tr_st (trim W sem I O s)) h).
+Proof. exact keep_outputs. Qed.
+Print Assumptions C08_keepref_outputs.
+
+(* the same under the weak condition — the one a workbook that HAS such a
+   reference cell meets *)
+Theorem C08_keepref_outputs_weak : forall W sem unb, wf W ->
+  (forall m, unb m = true -> wb_range W m = true) ->
+  forall I O s, (forall o, In o O -> o < wb_n W) ->
+  sem_nonblank_weak W sem -> stored_ok W sem -> Inv W sem s ->
+  (forall a, In a I -> wb_input (tr_wb (trim W sem I O s)) a = true
+                       /\ st_built (tr_st (trim W sem I O s)) a = true
+                       /\ scalar_exact (st_cache (tr_st (trim W sem I O s)) a) = true) ->
+  forall h, Forall (io_op I O) h -> Forall (nonblank_write W) h ->
+    snd (run (tr_wb (trim_keepref W sem unb I O s)) sem (tr_st (trim_keepref W sem unb I O s)) h)
+    = snd (run (tr_wb (trim W sem I O s)) sem (tr_st (trim W sem I O s)) h).
+Proof. exact keep_outputs_weak. Qed.
+Print Assumptions C08_keepref_outputs_weak.
